@@ -103,12 +103,14 @@ func (g *globalCounterManager) Add(name string, typ proxyv1alpha1.FlowControlSch
 
 	stopCh := flowControl.Done()
 	go func() {
+		// stop THIS counter only: by the time this runs another wrapper may have
+		// registered a new counter under the same name
 		select {
 		case <-stopCh:
-			g.Stop(name)
+			g.stopCounter(name, counter)
 			return
 		case <-g.ctx.Done():
-			g.Stop(name)
+			g.stopCounter(name, counter)
 			return
 		}
 	}()
@@ -122,6 +124,16 @@ func (g *globalCounterManager) Stop(name string) {
 	defer g.lock.Unlock()
 	c, ok := g.counterMap[name]
 	if ok {
+		close(c.stopCh)
+		delete(g.counterMap, name)
+	}
+	g.ensureWorker()
+}
+
+func (g *globalCounterManager) stopCounter(name string, counter *globalCounter) {
+	g.lock.Lock()
+	defer g.lock.Unlock()
+	if c, ok := g.counterMap[name]; ok && c == counter {
 		close(c.stopCh)
 		delete(g.counterMap, name)
 	}
